@@ -80,7 +80,7 @@ def case_strategy(draw, tier):
         'fault': draw(st.sampled_from(['kill', 'kill', 'kill', 'stall'])),
         'restart': draw(st.sampled_from([0, 300, 2000, 7000, None])),
         'stall_ms': draw(st.integers(6000, 8000)),
-        'net': draw(scen.net_strategy(classes=('fast', 'lan', 'sub_poll'), max_drops=0)),
+        'net': {**draw(scen.net_strategy(classes=('fast', 'lan', 'sub_poll'), max_drops=0)), 'reconn_lag_ms': draw(st.sampled_from([0, 0, 5, 60, 300, -5, -60]))},
         'ipc': draw(st.booleans()),
     }
 
